@@ -201,6 +201,12 @@ func genCron(r *runner) {
 			r.do(nc)
 		}
 	}
+	// the longest bounded search: an empty seconds set (field ",") walks five years second by second
+	{
+		c := mk("cron-next", "spec", hx([]byte(", * * * * *")), "opts", strconv.Itoa(int(cron.Second|cron.Minute|cron.Hour|cron.Dom|cron.Month|cron.Dow)), "t", "1700000000", "tn", "0", "zone", "America/Havana", "k", "1")
+		o := r.do(c)
+		r.res.Note("cron Next with an empty seconds set (\", * * * * *\", America/Havana): " + o.Class + " " + o.Detail + " after " + o.Dur.Round(10*time.Millisecond).String() + " (bounded by the five-year rule)")
+	}
 	// targeted family: every short string over the structural characters with every option set
 	targeted := []string{"", " ", "TZ=UTC", "CRON_TZ=UTC", "TZ=", "CRON_TZ=", "TZ= ", "TZ=UTC ", "TZ=UTC @daily", "@", "@every", ",", ", , , , , ,", "* * * * *", "* * * * * *", "0 0 30 2 *", "0 0 0 30 2 *", ", * * * * *", "* , * * * *", "* * , * * *", "*/0 * * * *", "- * * * *", "/ * * * *", "*/ * * * *", "60 * * * *", "* * * * 8", "* * 0 * *", "* * * 13 *", "* * * * * * *", "*\t*\t*\t*\t*", "\xff\xfe * * * *", "* * * * \xc3"}
 	for _, s := range targeted {
